@@ -2210,6 +2210,420 @@ pub fn expectations() -> Vec<Expectation> {
 }
 
 // ------------------------------------------------------------------------------------------
+// family `nested-boxed`: boxed expressions nested in every position of every other boxed expression kind, with
+// variables, to depth 3.  The logic is generated as a small tree of its own (`NL`) whose value is computed here, by
+// the scope rules the property prescribes (an entry of a boxed context is visible to the entries after it and to
+// the result entry, and to nothing outside the context; bindings and relation cells see the enclosing scope; a
+// decision table's cells see the enclosing scope) — no model, no FEEL evaluator: integers only.
+
+/// integer expression over the visible integer-valued names
+#[derive(Clone, Debug)]
+enum IE {
+  K(i64),
+  V(String),
+  Add(Box<IE>, Box<IE>),
+  SubK(Box<IE>, i64),
+}
+
+#[derive(Clone, Debug)]
+enum NFun {
+  /// the function literal as a literal expression
+  Lit,
+  /// the knowledge model `Pair(p, q) = [p, q]`
+  Bkm,
+  /// a boxed context with the given named entries whose result entry is the function literal
+  Wrapped(Vec<(String, NL)>),
+}
+
+#[derive(Clone, Debug)]
+enum NL {
+  Int(IE),
+  Rel(Vec<Vec<IE>>),
+  /// variant (0 U, 1 F, 2 C+, 3 C), input expression, threshold, the two output entries
+  Table(u8, IE, i64, IE, IE),
+  Ctx(Vec<(Option<String>, NL)>),
+  /// the called function, the form of its body (0 `[p, q]`, 1 `{r: p, s: q}`, 2 `p * 100 + q`), the bindings
+  Inv(NFun, u8, Vec<(String, NL)>),
+}
+
+#[derive(Clone, Debug, PartialEq)]
+enum NV {
+  Null,
+  Int(i64),
+  Ctx(Vec<(String, NV)>),
+  List(Vec<NV>),
+}
+
+impl NV {
+  fn text(&self) -> String {
+    match self {
+      NV::Null => "null".into(),
+      NV::Int(n) => n.to_string(),
+      NV::Ctx(es) => format!("{{{}}}", es.iter().map(|(n, v)| format!("{}: {}", n, v.text())).collect::<Vec<_>>().join(", ")),
+      NV::List(xs) => format!("[{}]", xs.iter().map(|v| v.text()).collect::<Vec<_>>().join(", ")),
+    }
+  }
+}
+
+impl IE {
+  fn text(&self) -> String {
+    match self {
+      IE::K(n) => n.to_string(),
+      IE::V(n) => n.clone(),
+      IE::Add(l, r) => format!("{} + {}", l.text(), r.text()),
+      IE::SubK(l, k) => format!("{} - {}", l.text(), k),
+    }
+  }
+  fn eval(&self, env: &[(String, NV)]) -> Option<i64> {
+    match self {
+      IE::K(n) => Some(*n),
+      IE::V(n) => match env.iter().rev().find(|(m, _)| m == n) {
+        Some((_, NV::Int(k))) => Some(*k),
+        _ => None,
+      },
+      IE::Add(l, r) => Some(l.eval(env)? + r.eval(env)?),
+      IE::SubK(l, k) => Some(l.eval(env)? - k),
+    }
+  }
+  fn value(&self, env: &[(String, NV)]) -> NV {
+    self.eval(env).map_or(NV::Null, NV::Int)
+  }
+}
+
+const N_FUN_TEXT: [&str; 3] = ["function(p, q) [p, q]", "function(p, q) {r: p, s: q}", "function(p, q) p * 100 + q"];
+
+impl NL {
+  /// whether the value is an integer (what a later integer expression may use)
+  fn is_int(&self) -> bool {
+    match self {
+      NL::Int(_) => true,
+      NL::Rel(_) => false,
+      NL::Table(v, ..) => *v != 3,
+      NL::Ctx(es) => matches!(es.last(), Some((None, r)) if r.is_int()),
+      NL::Inv(_, form, _) => *form == 2,
+    }
+  }
+  fn logic(&self) -> Logic {
+    match self {
+      NL::Int(e) => Logic::Lit(e.text()),
+      NL::Rel(rows) => Logic::Rel(vec!["c0".into(), "c1".into()], rows.iter().map(|r| r.iter().map(|c| c.text()).collect()).collect()),
+      NL::Table(variant, input, c, o1, o2) => {
+        let (hp, e1, e2) = match variant {
+          0 => (("UNIQUE", None, "U"), format!("< {}", c), format!(">= {}", c)),
+          1 => (("FIRST", None, "F"), format!(">= {}", c), "-".to_string()),
+          2 => (("COLLECT", Some("SUM"), "C+"), "-".to_string(), format!("> {}", c)),
+          _ => (("COLLECT", None, "C"), "-".to_string(), format!("<= {}", c)),
+        };
+        Logic::Table(GTable { hit_policy: hp, inputs: vec![(input.text(), None)], outputs: vec![(None, None, None)], rules: vec![(vec![e1], vec![o1.text()]), (vec![e2], vec![o2.text()])] })
+      }
+      NL::Ctx(es) => Logic::Ctx(es.iter().map(|(n, e)| (n.clone(), e.logic())).collect()),
+      NL::Inv(f, form, bindings) => {
+        let fun_lit = Logic::Lit(N_FUN_TEXT[*form as usize].to_string());
+        let f = match f {
+          NFun::Lit => fun_lit,
+          NFun::Bkm => Logic::Lit("Pair".into()),
+          NFun::Wrapped(es) => {
+            let mut entries: Vec<(Option<String>, Logic)> = es.iter().map(|(n, e)| (Some(n.clone()), e.logic())).collect();
+            entries.push((None, fun_lit));
+            Logic::Ctx(entries)
+          }
+        };
+        Logic::Inv(Box::new(f), bindings.iter().map(|(n, e)| (n.clone(), e.logic())).collect(), false)
+      }
+    }
+  }
+  /// the value the property prescribes, in the scope `env` (later bindings shadow earlier ones)
+  fn value(&self, env: &[(String, NV)]) -> NV {
+    match self {
+      NL::Int(e) => e.value(env),
+      NL::Rel(rows) => NV::List(rows.iter().map(|r| NV::Ctx(r.iter().enumerate().map(|(i, c)| (format!("c{}", i), c.value(env))).collect())).collect()),
+      NL::Table(variant, input, c, o1, o2) => {
+        let v = match input.eval(env) {
+          Some(v) => v,
+          None => return NV::Null,
+        };
+        match variant {
+          0 => if v < *c { o1.value(env) } else { o2.value(env) },
+          1 => if v >= *c { o1.value(env) } else { o2.value(env) },
+          2 => match (o1.eval(env), o2.eval(env)) {
+            (Some(x), Some(y)) => NV::Int(if v > *c { x + y } else { x }),
+            _ => NV::Null,
+          },
+          _ => NV::List(if v <= *c { vec![o1.value(env), o2.value(env)] } else { vec![o1.value(env)] }),
+        }
+      }
+      NL::Ctx(es) => {
+        let mut local = env.to_vec();
+        let mut out: Vec<(String, NV)> = vec![];
+        for (n, e) in es {
+          let v = e.value(&local);
+          match n {
+            Some(n) => {
+              local.push((n.clone(), v.clone()));
+              out.retain(|(m, _)| m != n);
+              out.push((n.clone(), v));
+            }
+            None => return v,
+          }
+        }
+        NV::Ctx(out)
+      }
+      NL::Inv(_, form, bindings) => {
+        let arg = |name: &str| bindings.iter().rev().find(|(n, _)| n == name).map_or(NV::Null, |(_, e)| e.value(env));
+        let (p, q) = (arg("p"), arg("q"));
+        match form {
+          0 => NV::List(vec![p, q]),
+          1 => NV::Ctx(vec![("r".into(), p), ("s".into(), q)]),
+          _ => match (p, q) {
+            (NV::Int(x), NV::Int(y)) => NV::Int(x * 100 + y),
+            _ => NV::Null,
+          },
+        }
+      }
+    }
+  }
+}
+
+/// the position of a nested expression in the expression around it
+#[derive(Clone, Copy, Debug, PartialEq)]
+enum NPos {
+  /// the value of a named context entry
+  Entry,
+  /// the value of the result entry of a context
+  Result,
+  /// the binding formula of an invocation
+  Binding,
+  /// a named entry of a boxed context that stands for the called function of an invocation
+  Function,
+}
+
+#[derive(Clone, Copy, Debug, PartialEq)]
+enum NK {
+  Lit,
+  Rel,
+  Table,
+  CtxNoResult,
+  CtxResult,
+  Inv,
+}
+
+/// names of context entries: fresh ones, a name with a space, and the names of the inputs (shadowing)
+const N_NAMES: [&str; 7] = ["x", "y", "k", "net amount", "a", "b", "m"];
+
+struct NGen<'a> {
+  rng: &'a mut Rng,
+}
+
+impl<'a> NGen<'a> {
+  fn ie(&mut self, ints: &[String]) -> IE {
+    let atom = |me: &mut Self| -> IE {
+      if !ints.is_empty() && me.rng.chance(3, 4) {
+        IE::V(me.rng.pick(ints).clone())
+      } else {
+        IE::K(me.rng.range(0, 9))
+      }
+    };
+    match self.rng.below(4) {
+      0 => IE::Add(Box::new(atom(self)), Box::new(atom(self))),
+      1 => IE::SubK(Box::new(atom(self)), self.rng.range(0, 5)),
+      2 if !ints.is_empty() => IE::Add(Box::new(IE::V(ints.last().unwrap().clone())), Box::new(atom(self))),
+      _ => atom(self),
+    }
+  }
+  /// an expression with `path` of positions around an expression of the kind `leaf`; the parts not on the path are
+  /// random expressions of depth below `depth`
+  fn gen(&mut self, ints: &[String], depth: u32, path: &[NPos], leaf: Option<NK>) -> NL {
+    if let Some((p, rest)) = path.split_first() {
+      return match p {
+        NPos::Entry | NPos::Result => self.ctx(ints, depth, Some((*p, rest, leaf)), None),
+        NPos::Binding | NPos::Function => self.inv(ints, depth, Some((*p, rest, leaf))),
+      };
+    }
+    let kind = leaf.unwrap_or_else(|| {
+      if depth == 0 {
+        *self.rng.pick(&[NK::Lit, NK::Lit, NK::Rel, NK::Table])
+      } else {
+        *self.rng.pick(&[NK::Lit, NK::Rel, NK::Table, NK::CtxNoResult, NK::CtxResult, NK::CtxResult, NK::Inv, NK::Inv])
+      }
+    });
+    match kind {
+      NK::Lit => NL::Int(self.ie(ints)),
+      NK::Rel => {
+        let n = 1 + self.rng.below(2);
+        NL::Rel((0..n).map(|_| vec![self.ie(ints), self.ie(ints)]).collect())
+      }
+      NK::Table => NL::Table(self.rng.below(4) as u8, self.ie(ints), self.rng.range(0, 12), self.ie(ints), self.ie(ints)),
+      NK::CtxNoResult => self.ctx(ints, depth, None, Some(false)),
+      NK::CtxResult => self.ctx(ints, depth, None, Some(true)),
+      NK::Inv => self.inv(ints, depth, None),
+    }
+  }
+  fn ctx(&mut self, ints: &[String], depth: u32, forced: Option<(NPos, &[NPos], Option<NK>)>, result: Option<bool>) -> NL {
+    let d1 = depth.saturating_sub(1);
+    let n = 1 + self.rng.below(3) as usize;
+    let mut names: Vec<&str> = N_NAMES.to_vec();
+    for i in (1..names.len()).rev() {
+      let j = self.rng.below(i as u64 + 1) as usize;
+      names.swap(i, j);
+    }
+    let forced_ix = self.rng.below(n as u64) as usize;
+    let with_result = match forced {
+      Some((NPos::Result, _, _)) => true,
+      _ => result.unwrap_or_else(|| self.rng.chance(1, 2)),
+    };
+    let mut local: Vec<String> = ints.to_vec();
+    let mut entries = vec![];
+    for i in 0..n {
+      let e = match forced {
+        Some((NPos::Entry, rest, leaf)) if i == forced_ix => self.gen(&local, d1, rest, leaf),
+        _ => self.gen(&local, d1.min(1), &[], None),
+      };
+      let name = names[i].to_string();
+      local.retain(|m| *m != name);
+      if e.is_int() {
+        local.push(name.clone());
+      }
+      entries.push((Some(name), e));
+    }
+    if with_result {
+      let e = match forced {
+        Some((NPos::Result, rest, leaf)) => self.gen(&local, d1, rest, leaf),
+        _ => self.gen(&local, d1.min(1), &[], None),
+      };
+      entries.push((None, e));
+    }
+    NL::Ctx(entries)
+  }
+  fn inv(&mut self, ints: &[String], depth: u32, forced: Option<(NPos, &[NPos], Option<NK>)>) -> NL {
+    let d1 = depth.saturating_sub(1);
+    let forced_q = self.rng.chance(1, 2);
+    let mut bind = |me: &mut Self, is_q: bool| -> NL {
+      match forced {
+        Some((NPos::Binding, rest, leaf)) if is_q == forced_q => me.gen(ints, d1, rest, leaf),
+        _ => me.gen(ints, d1.min(1), &[], None),
+      }
+    };
+    let p = bind(self, false);
+    let q = bind(self, true);
+    let form = if p.is_int() && q.is_int() && self.rng.chance(1, 2) { 2 } else { self.rng.below(2) as u8 };
+    let fun = match forced {
+      Some((NPos::Function, rest, leaf)) => {
+        let mut local: Vec<String> = ints.to_vec();
+        let mut es = vec![];
+        if self.rng.chance(1, 2) {
+          es.push(("g".to_string(), NL::Int(self.ie(&local))));
+          local.push("g".into());
+        }
+        es.push(("h".to_string(), self.gen(&local, d1, rest, leaf)));
+        NFun::Wrapped(es)
+      }
+      _ => match self.rng.below(4) {
+        0 if form == 0 => NFun::Bkm,
+        1 => NFun::Wrapped(vec![("h".to_string(), self.gen(ints, 0, &[], None))]),
+        _ => NFun::Lit,
+      },
+    };
+    let mut bindings = vec![("p".to_string(), p), ("q".to_string(), q)];
+    if self.rng.chance(1, 3) {
+      bindings.reverse();
+    }
+    NL::Inv(fun, form, bindings)
+  }
+}
+
+/// The graphs of the family: inputs `a`, `b` (numbers), the knowledge model `Pair`, and decisions `N0 …` whose logic
+/// is a nested boxed expression — every path of one and of two positions (named entry, result entry, binding,
+/// context at the called function) around every kind of expression, and random ones of depth ≤ 3.
+fn nested_graphs(rng: &mut Rng, n_random: usize) -> Vec<(Graph, Vec<(String, NL)>)> {
+  let positions = [NPos::Entry, NPos::Result, NPos::Binding, NPos::Function];
+  let kinds = [NK::Lit, NK::Rel, NK::Table, NK::CtxNoResult, NK::CtxResult, NK::Inv];
+  let ints: Vec<String> = vec!["a".into(), "b".into()];
+  let mut logics: Vec<NL> = vec![];
+  let mut g = NGen { rng };
+  for k in kinds {
+    for p1 in positions {
+      logics.push(g.gen(&ints, 2, &[p1], Some(k)));
+      for p2 in positions {
+        logics.push(g.gen(&ints, 3, &[p1, p2], Some(k)));
+      }
+    }
+  }
+  for _ in 0..n_random {
+    let d = 1 + g.rng.below(3) as u32;
+    logics.push(g.gen(&ints, d, &[], None));
+  }
+  let mut out = vec![];
+  for chunk in logics.chunks(8) {
+    let mut graph = Graph {
+      inputs: vec![inp("_a", "a", Ty::Number), inp("_b", "b", Ty::Number)],
+      decisions: vec![],
+      bkms: vec![bkm("_pair", "Pair", Ty::Untyped, &[("p", Ty::Untyped), ("q", Ty::Untyped)], &[], lit("[p, q]"))],
+      services: vec![],
+    };
+    let mut named = vec![];
+    for (i, nl) in chunk.iter().enumerate() {
+      let name = format!("N{}", i);
+      graph.decisions.push(dec(&format!("_n{}", i), &name, Ty::Untyped, &["_a", "_b"], &[], &["_pair"], nl.logic()));
+      named.push((name, nl.clone()));
+    }
+    out.push((graph, named));
+  }
+  out
+}
+
+/// Evaluates every decision of the family on three input contexts and compares with the value computed here.
+fn run_nested(rep: &mut Report, graphs: &[(Graph, Vec<(String, NL)>)], rng: &mut Rng) {
+  fn depth(l: &NL) -> usize {
+    match l {
+      NL::Ctx(es) => 1 + es.iter().map(|(_, e)| depth(e)).max().unwrap_or(0),
+      NL::Inv(f, _, bs) => {
+        let df = match f {
+          NFun::Wrapped(es) => 1 + es.iter().map(|(_, e)| depth(e)).max().unwrap_or(0),
+          _ => 0,
+        };
+        1 + bs.iter().map(|(_, e)| depth(e)).max().unwrap_or(0).max(df)
+      }
+      _ => 1,
+    }
+  }
+  let sig = "nested boxed expressions: the value of the decision differs from its logic evaluated in the scope of every part (written out)";
+  for (g, named) in graphs {
+    let xml = graph_xml(g);
+    let built = guarded(|| dmntk_model::parse(&xml).map_err(|m| m.to_string()).and_then(|d| ModelEvaluator::new(&d).map_err(|m| m.to_string())));
+    let me = match built {
+      Ok(Ok(me)) => me,
+      Ok(Err(m)) => {
+        rep.disagree(Kind::ImplVsSpec, "nested-boxed", "nested boxed expressions: the model does not build", &xml, &m, "a model evaluator");
+        continue;
+      }
+      Err(p) => {
+        rep.disagree(Kind::ImplVsSpec, "nested-boxed", "nested boxed expressions: panic while building the model", &xml, &p, "a model evaluator");
+        continue;
+      }
+    };
+    for (name, nl) in named {
+      rep.hit(&format!("nested-boxed:depth={}", depth(nl)));
+      for k in 0..3 {
+        let (a, b) = if k == 0 { (3, 10) } else { (rng.range(0, 12), rng.range(0, 12)) };
+        let env = vec![("a".to_string(), NV::Int(a)), ("b".to_string(), NV::Int(b))];
+        let expected = format!("{}", strip(&eval_text(&nl.value(&env).text())));
+        let mut ctx = FeelContext::default();
+        ctx.set_entry(&Name::from("a"), eval_text(&a.to_string()));
+        ctx.set_entry(&Name::from("b"), eval_text(&b.to_string()));
+        let obs = match guarded(|| me.evaluate_invocable(name, &ctx)) {
+          Ok(v) => format!("{}", strip(&v)),
+          Err(p) => format!("panic: {}", p),
+        };
+        rep.case(&format!("nested {} {} {} {}", xml, name, a, b), true);
+        if obs != expected {
+          rep.disagree(Kind::ImplVsSpec, "nested-boxed", sig, &format!("invocable {} on {{a: {}, b: {}}} in model {}", name, a, b, xml), &obs, &expected);
+        }
+      }
+    }
+  }
+}
+
+// ------------------------------------------------------------------------------------------
 // running
 
 fn render_impl(r: Result<Value, String>) -> String {
@@ -2300,6 +2714,16 @@ pub fn run_graphs(cfg: &Cfg, rep: &mut Report, n_graphs: usize, with_cyclic: boo
   let mut graphs: Vec<(String, Graph)> = corpus().into_iter().filter(|(n, _)| n.starts_with(only)).map(|(n, g)| (n.to_string(), g)).collect();
   for k in 0..n_graphs {
     graphs.push((format!("random-{}", k), gen_graph(&mut rng)));
+  }
+  // boxed expressions nested in every position of every other kind: against the values written out in the harness,
+  // and (below, like every other graph) against the model and the specification
+  if only.is_empty() {
+    let mut nrng = Rng::new(cfg.seed ^ 0x6e65_7374);
+    let nested = nested_graphs(&mut nrng, if cfg.tier == "thorough" { 1200 } else { 120 });
+    run_nested(rep, &nested, &mut nrng);
+    for (k, (g, _)) in nested.into_iter().enumerate() {
+      graphs.push((format!("nested-{}", k), g));
+    }
   }
   // graphs with a requirement cycle: the predicate must reject them, and so must
   // `ModelEvaluator::new` (`check_requirements`) and its model `Drg.checkRequirements`
@@ -2434,7 +2858,7 @@ pub fn run_graphs(cfg: &Cfg, rep: &mut Report, n_graphs: usize, with_cyclic: boo
     for i in &g.inputs {
       all_names.insert(i.name.clone());
     }
-    let n_ctx = if shape.starts_with("random") {
+    let n_ctx = if shape.starts_with("random") || shape.starts_with("nested") {
       2
     } else if shape == "recursion-by-name" {
       1
@@ -2571,7 +2995,7 @@ pub fn run_graphs(cfg: &Cfg, rep: &mut Report, n_graphs: usize, with_cyclic: boo
       }
       rep.case(&reqs[ix], p.nontrivial);
       if !p.shape.starts_with("random") {
-        rep.hit(&format!("corpus:{}", p.shape));
+        rep.hit(&format!("corpus:{}", if p.shape.starts_with("nested") { "nested" } else { p.shape.as_str() }));
       }
       rep.hit(&format!("variant:{}", p.variant));
       if p.xml.contains(">1.25<") || p.xml.contains(">0.15<") || p.xml.contains(">2.5<") {
